@@ -726,37 +726,6 @@ Proof.
   rewrite <- (uint_of_unique bits r v Hc He). reflexivity.
 Qed.
 
-Lemma pow_mod2_pos_spec a p k : 0 <= k -> Opaque.pow_mod2_pos a p k = a ^ Zpos p mod 2 ^ k.
-Proof.
-  intros Hk. assert (HM : 0 < 2 ^ k) by (apply Z.pow_pos_nonneg; lia).
-  induction p as [p IH|p IH|]; cbn [Opaque.pow_mod2_pos]; rewrite !modp2_spec by exact Hk.
-  - rewrite IH. rewrite <- Z.mul_mod by lia. rewrite Z.mul_mod_idemp_l by lia. f_equal.
-    rewrite Pos2Z.inj_xI. replace (2 * Z.pos p + 1) with (Z.pos p + Z.pos p + 1) by lia.
-    rewrite !Z.pow_add_r, Z.pow_1_r by lia. reflexivity.
-  - rewrite IH. rewrite <- Z.mul_mod by lia. f_equal.
-    rewrite Pos2Z.inj_xO. replace (2 * Z.pos p) with (Z.pos p + Z.pos p) by lia.
-    now rewrite Z.pow_add_r by lia.
-  - now rewrite Z.pow_1_r.
-Qed.
-Lemma pow_mod2_spec a e k : 0 <= k -> 0 <= e -> Opaque.pow_mod2 a e k = a ^ e mod 2 ^ k.
-Proof.
-  intros Hk He. destruct e as [|p|p]; cbn [Opaque.pow_mod2]; [|now apply pow_mod2_pos_spec|lia].
-  rewrite modp2_spec by exact Hk. now rewrite Z.pow_0_r.
-Qed.
-
-Lemma agree_opaque_wrapping_pow bits a e c imm :
-  0 <= bits -> canon bits a -> canon bits e ->
-  History.sem History.WrPow bits a e c imm = (do r <- Pow.wrapping_pow bits a e ; History.wr r).
-Proof.
-  intros Hb Ca Ce. cbn [History.sem]. unfold Opaque.z_wrapping_pow.
-  destruct (Z.eq_dec bits 0) as [->|Hne].
-  - apply canon_zero_width in Ca. subst a. reflexivity.
-  - destruct (PfPow.wrapping_pow_spec bits a e ltac:(lia) Ca Ce) as (r & -> & Cr & Er).
-    cbn [obind]. symmetry. apply wr_lift; [exact Cr|].
-    pose proof (canon_range bits e Hb Ce). rewrite pow_mod2_spec by lia. exact Er.
-Qed.
-
-(* the bit-by-bit integer root of Opaque.v and of the C13 specification are the same function *)
 Lemma agree_opaque_iroot_loop x d : 0 <= x -> 0 <= d -> forall k r, 0 <= r ->
   Opaque.iroot_loop k x d r = RunC13.iroot_loop k d x r.
 Proof.
